@@ -1136,10 +1136,7 @@ func ruleC14AwaitWaits(c *Ctx) {
 		return
 	}
 	n := 0
-	for _, g := range withClosures(f) {
-		if g == f {
-			continue
-		}
+	for _, g := range funcValuesCreatedIn(f) {
 		evaluates := false
 		allInstrs(g, func(_ *ssa.BasicBlock, in ssa.Instruction) {
 			if call, ok := in.(*ssa.Call); ok && call.Common().StaticCallee() != nil && call.Common().StaticCallee().Name() == "FuncArgReader" {
